@@ -112,6 +112,7 @@ func (server *Server) Start() error {
 	if err != nil {
 		return err
 	}
+	verifPoint("start-opened")
 
 	// Each accept loop owns the listener it was started with: a loop of an earlier start
 	// can never touch the listeners of a later one.
@@ -142,11 +143,14 @@ func (server *Server) Stop() error {
 	if err := server.close(); err != nil {
 		return err
 	}
+	verifPoint("stop-listeners-closed")
 	server.acceptGroup.Wait()
+	verifPoint("stop-loops-done")
 
 	if err := server.ConnManager.Stop(); err != nil {
 		return err
 	}
+	verifPoint("stop-conns-closed")
 	server.connGroup.Wait()
 
 	if server.IsPortEnabled() {
@@ -244,8 +248,10 @@ func (server *Server) serve(l net.Listener) error {
 	for {
 		conn, err := l.Accept()
 		if err != nil {
+			verifPoint("loop-exit")
 			return err
 		}
+		verifPoint("accepted")
 		server.startConn(conn, nil)
 	}
 }
@@ -256,8 +262,10 @@ func (server *Server) tlsServe(l net.Listener, tlsConfig *tls.Config) error {
 	for {
 		conn, err := l.Accept()
 		if err != nil {
+			verifPoint("loop-exit")
 			return err
 		}
+		verifPoint("accepted")
 		tlsConn := tls.Server(conn, tlsConfig)
 		server.startConn(tlsConn, tlsConn)
 	}
@@ -267,9 +275,11 @@ func (server *Server) tlsServe(l net.Listener, tlsConfig *tls.Config) error {
 func (server *Server) startConn(conn net.Conn, tlsConn *tls.Conn) {
 	handlerConn := newConnWith(conn, nil)
 	server.AddConn(handlerConn)
+	verifPoint("registered")
 	server.connGroup.Add(1)
 	go func() {
 		defer server.connGroup.Done()
+		verifPoint("conn-start")
 		if tlsConn != nil {
 			// The handshake runs in the connection goroutine, so a failing, stalling or
 			// abandoned handshake affects only this connection.
